@@ -425,7 +425,19 @@ class G:
             yield f"heven parse {self.hx(s)}"
             yield f"heven s2d {self.hx(s)}"
         for _ in range(n):
-            k = r.randrange(10)
+            k = r.randrange(11)
+            if k == 10:
+                # a long digit run (the 8-byte SWAR window applies) with one byte replaced by a neighbour of '0'..'9' in ASCII
+                # ('/' and ':' ';' '<' '=' '>' '?'), or by a byte that differs from a digit in one bit
+                d = self.digits(r.randrange(8, 30))
+                i = r.randrange(len(d))
+                ch = r.choice("/:;<=>?/:" + "\x10\x20 pqrstuvwxy@ABCDEFGHI\x7f")
+                d = d[:i] + ch + d[i + 1:]
+                form = r.randrange(4)
+                s = d if form == 0 else ("0." + d if form == 1 else (self.digits(r.randrange(1, 12)) + "." + d if form == 2
+                                                                  else r.choice("+-") + d))
+                yield f"heven {r.choice(['parse', 's2d'])} {self.hx(s)}"
+                continue
             if k < 6:
                 s = self.literal()
             elif k < 8:  # single-byte mutation of a valid literal
@@ -433,7 +445,7 @@ class G:
                 if s:
                     i = r.randrange(len(s))
                     m = r.randrange(3)
-                    ch = r.choice("0123456789.eE+- _x")
+                    ch = r.choice("0123456789.eE+- _x/:;<=>?")
                     s = s[:i] + (ch + s[i:] if m == 0 else s[i + 1:] if m == 1 else ch + s[i + 1:])
             elif k == 8:  # raw bytes (valid utf-8 by construction: ascii + a few multibyte chars)
                 s = "".join(r.choice("0123456789.eE+-\x00\x7f aé０१") for _ in range(r.randrange(0, 20)))
